@@ -128,15 +128,28 @@ impl ConclusionIndex {
 
     /// Extract field name from goal pattern
     fn extract_field_from_goal<'a>(&self, goal_pattern: &'a str) -> &'a str {
-        // Handle comparison operators
+        // The field is the text before the LEFTMOST comparison operator. (Taking the first
+        // operator of this list that occurs anywhere in the text splits `x != "a == b"` inside
+        // the literal: the list order must not decide where the goal is cut.)
+        let mut split: Option<usize> = None;
         for op in &["==", "!=", ">=", "<=", ">", "<", " contains ", " matches "] {
             if let Some(pos) = goal_pattern.find(op) {
-                return goal_pattern[..pos].trim();
+                let leftmost_so_far = match split {
+                    Some(best) => pos < best,
+                    None => true,
+                };
+                if leftmost_so_far {
+                    split = Some(pos);
+                }
             }
         }
 
-        // No operator found, return whole pattern
-        goal_pattern.trim()
+        // No operator found: the whole pattern is the field
+        let before_operator = match split {
+            Some(pos) => &goal_pattern[..pos],
+            None => goal_pattern,
+        };
+        before_operator.trim()
     }
 
     /// Extract all conclusions (facts derived) from a rule
